@@ -289,7 +289,11 @@ func normInt(t *Term) *Poly {
 			return normInt(t.Args[0])
 		}
 	}
-	return polyAtom(canon2(t, true))
+	ct := canon2(t, true)
+	if v, ok := ct.ConstInt(); ok {
+		return polyConst(v)
+	}
+	return polyAtom(ct)
 }
 
 // canon rewrites a term into its shape-mode canonical form.
@@ -336,8 +340,14 @@ func canon2(t *Term, fromNorm bool) *Term {
 					return &Term{Op: OpCeilDiv, Typ: intT, Args: []*Term{a.toTerm(), d.toTerm()}}
 				}
 			}
+			if n.IsZero() {
+				return mkInt(0, intT) // 0/d (a zero divisor is a separate obligation: EDiv)
+			}
 			return &Term{Op: OpDiv, Typ: intT, Args: []*Term{n.toTerm(), d.toTerm()}}
 		case OpRem:
+			if normInt(t.Args[0]).IsZero() {
+				return mkInt(0, intT)
+			}
 			return &Term{Op: OpRem, Typ: intT, Args: []*Term{normInt(t.Args[0]).toTerm(), normInt(t.Args[1]).toTerm()}}
 		case OpIte:
 			c := condOf(t.Args[0], false)
@@ -409,6 +419,15 @@ func mkMinMax(op Op, x, y *Term) *Term {
 				return x
 			}
 			return y
+		}
+	}
+	// a length or capacity is never negative: min(c, len) = c and max(c, len) = len for a constant c <= 0
+	for _, pr := range [][2]*Term{{x, y}, {y, x}} {
+		if c, ok := pr[0].ConstInt(); ok && c.Sign() <= 0 && pr[1].Op == OpAtom && (strings.HasPrefix(pr[1].Name, "len(") || strings.HasPrefix(pr[1].Name, "cap(")) {
+			if op == OpMin {
+				return pr[0]
+			}
+			return pr[1]
 		}
 	}
 	return &Term{Op: op, Typ: x.Typ, Args: []*Term{x, y}}
@@ -705,6 +724,18 @@ func (f *Facts) ge0Facts() []*Poly {
 			out = append(out, c.P, c.P.Neg())
 		}
 	}
+	// p >= 0 and p != 0  =>  p - 1 >= 0 (also before the structural knowledge below, which asks for b >= 1)
+	for _, c := range f.list {
+		if c.Kind != CNE0 {
+			continue
+		}
+		n := len(out)
+		for i := 0; i < n; i++ {
+			if out[i].Equal(c.P) || out[i].Equal(c.P.Neg()) {
+				out = append(out, out[i].AddInt(-1))
+			}
+		}
+	}
 	// structural knowledge about opaque atoms: len/cap are non-negative; min(a,b) <= a, b; max(a,b) >= a, b;
 	// min of non-negatives, max with a non-negative, a running max from a non-negative start, ceildiv of a
 	// non-negative by a positive and an if-then-else of non-negatives are non-negative
@@ -722,6 +753,10 @@ func (f *Facts) ge0Facts() []*Poly {
 		switch t.Op {
 		case OpMin, OpMax, OpCeilDiv, OpFold, OpIte, OpRem, OpDiv:
 			atoms = append(atoms, t) // children first
+		case OpCall:
+			if strings.HasPrefix(t.Name, reinterpretPrefix) && len(t.Args) == 1 {
+				atoms = append(atoms, t)
+			}
 		case OpAtom:
 			if strings.HasPrefix(t.Name, "len(") || strings.HasPrefix(t.Name, "cap(") {
 				atoms = append(atoms, t)
@@ -770,6 +805,25 @@ func (f *Facts) ge0Facts() []*Poly {
 		case OpCeilDiv:
 			if geIn(out, normInt(t.Args[0])) && geIn(out, normInt(t.Args[1]).AddInt(-1)) {
 				out = append(out, m)
+			}
+		case OpCall:
+			// u = uintN(x) for a signed x of at most that width: u >= 0; x >= 0 implies u = x; u < 2^N - 2^(M-1) implies u = x >= 0
+			x := normInt(t.Args[0])
+			out = append(out, m)
+			k := kindOf(t.Typ)
+			same := geIn(out, x)
+			if fk := kindOf(t.Args[0].Typ); !same && k.OK && fk.OK && fk.Bits <= k.Bits {
+				// a negative x becomes at least 2^toBits - 2^(fromBits-1): anything below that is x itself
+				maxS := new(big.Int).Sub(new(big.Int).Sub(pow2(int64(k.Bits)), pow2(int64(fk.Bits-1))), big.NewInt(1))
+				for _, a := range out {
+					if cst, ok := a.Add(m).IsConst(); ok && cst.Cmp(maxS) <= 0 && len(a.m) <= 2 {
+						same = true
+						break
+					}
+				}
+			}
+			if same {
+				out = append(out, x, m.Sub(x), x.Sub(m))
 			}
 		case OpRem:
 			// a >= 0, b >= 1: 0 <= a mod b <= b-1 and a mod b <= a
